@@ -1193,7 +1193,7 @@ fn builder_sweep(ctx: &Ctx, thorough: bool) {
 
 pub fn run(tier: Tier, replay: Option<String>) -> i32 {
     let ctx = crate::new_ctx("C12", tier, "model_checking", &replay);
-    ctx.set_rule("E1: BFS over all histories up to the depth bound of {create region (owned anonymous / owned file-backed - through from_range, the builder with the hugetlbfs hint true or false, or with the hint set, cleared or toggled on the finished region, rotating with the slot; anonymous and external regions with the hint changed afterwards too - / external raw / external raw file-backed; Xen build: UNIX, grant in advance, foreign on the emulated devices), build a map from any subset of region handles, insert, remove (yields a removed-region handle), clone map, wrap in GuestMemoryAtomic, snapshot, replace the published map, clone handle, drop ANY live handle (every other drop happens while a caught panic unwinds; a region handle is first offered once more to every map that already holds that region - refused, and nobody's share changes)}; state = owner graph (which handle keeps which region alive), each frontier state is rebuilt by replaying its history on the real objects with mmap/munmap (and the grant ioctls) recorded through link-time interposition. After every step: no map resolves the guest range of a region it does not hold (asked first, before any other lookup through that map); a region with an owner has not been passed to munmap and is readable; a region whose last owner went away was munmap'ed exactly once with exactly its mapped length (grant: plus exactly one matching unmap ioctl); external mappings are never unmapped; at the end of every history all remaining handles are dropped and the same invariant is checked. Address-space accounting: the whole mapping log is replayed after every step; every page the library mapped while creating a region is attributed to it, all pages of a region with an owner must still be mapped, and none of the pages attributed to a region without owners may remain. Size sweep: the life cycle {create, build, clone, atomic, snapshot, optional remove} followed by the drop orders of the five owners for owned regions of 1 byte .. 1 GiB (thorough: .. 4 GiB; page multiples and not, around the 2 MiB huge-page size, exact multiples of 1 GiB), same invariants. Replace histories: create two regions, build, remove, wrap, snapshot, replace the published map by the one without the second region, then drop its four other owners in all 24 orders while the replaceable memory stays alive. Failed creations (std build): anonymous and file-backed regions and a two-region map created through four routes with exactly one mmap call failing, or one query of the file length failing or reporting an empty file: nothing the library mapped on the way may remain. Builder sweep (std build): MmapRegionBuilder::build for 5 protections x 16 (thorough 25) flag words (private/shared, anonymous or not, NORESERVE, LOCKED, POPULATE, FIXED, HUGETLB, STACK, GROWSDOWN, ...) x 4 (6) sizes x {no file, file at offset 0, file at a page offset}: while a built region is alive exactly its pages are mapped, after its drop or after a refused build nothing remains; every mlock/madvise/mprotect call the library makes on the way (interposed too) is failed once.");
+    ctx.set_rule("E1: BFS over all histories up to the depth bound of {create region (owned anonymous / owned file-backed - through from_range, the builder with the hugetlbfs hint true or false, or with the hint set, cleared or toggled on the finished region, rotating with the slot; anonymous and external regions with the hint changed afterwards too - / external raw / external raw file-backed; Xen build: UNIX, grant in advance, foreign on the emulated devices), build a map from any subset of region handles, insert, remove (yields a removed-region handle), clone map, wrap in GuestMemoryAtomic, snapshot, replace the published map, clone handle, drop ANY live handle (every other drop happens while a caught panic unwinds; a region handle is first offered once more to every map that already holds that region - refused, and nobody's share changes)}; state = owner graph (which handle keeps which region alive), each frontier state is rebuilt by replaying its history on the real objects with mmap/munmap (and the grant ioctls) recorded through link-time interposition. After every step: no map resolves the guest range of a region it does not hold (asked first, before any other lookup through that map); a region with an owner has not been passed to munmap and is readable; a region whose last owner went away was munmap'ed exactly once with exactly its mapped length (grant: plus exactly one matching unmap ioctl); external mappings are never unmapped; at the end of every history all remaining handles are dropped and the same invariant is checked. Address-space accounting: the whole mapping log is replayed after every step; every page the library mapped while creating a region is attributed to it, all pages of a region with an owner must still be mapped, and none of the pages attributed to a region without owners may remain. Size sweep: the life cycle {create, build, clone, atomic, snapshot, optional remove} followed by the drop orders of the five owners for owned regions of 1 byte .. 1 GiB (thorough: .. 4 GiB; page multiples and not, around the 2 MiB huge-page size, exact multiples of 1 GiB), same invariants. Replace histories: create two regions, build, remove, wrap, snapshot, replace the published map by the one without the second region, then drop its four other owners in all 24 orders while the replaceable memory stays alive. And the mirror image: a snapshot of map{R0}, then map{R0,R1} is published, and R1's three owners (handle, map, replaceable memory) are dropped in all 6 orders while the old snapshot stays. Failed creations (std build): anonymous and file-backed regions and a two-region map created through four routes with exactly one mmap call failing, or one query of the file length failing or reporting an empty file: nothing the library mapped on the way may remain. Builder sweep (std build): MmapRegionBuilder::build for 5 protections x 16 (thorough 25) flag words (private/shared, anonymous or not, NORESERVE, LOCKED, POPULATE, FIXED, HUGETLB, STACK, GROWSDOWN, ...) x 4 (6) sizes x {no file, file at offset 0, file at a page offset}: while a built region is alive exactly its pages are mapped, after its drop or after a refused build nothing remains; every mlock/madvise/mprotect call the library makes on the way (interposed too) is failed once.");
     ctx.assume("the 'programs' half of the property (accessors cannot outlive their parent) is decided by the compile-fail grid in tools/cfail.py and rests on Rust's borrow checker");
     if ctx.replay_of.is_some() {
         println!("replay: deterministic search; re-running it");
